@@ -662,7 +662,15 @@ func c06ChannelOwner(c *Ctx) {
 	ix := BuildIndex(c.P)
 	// the acquire functions and helpers only they reach
 	sendOK := func(fn *ssa.Function) bool {
-		return ix.WithinNames(fn, "bulkhead.(*bulkhead).AcquirePermit", "bulkhead.(*bulkhead).AcquirePermitWithMaxWait", "bulkhead.(*bulkhead).TryAcquirePermit")
+		if ix.WithinNames(fn, "bulkhead.(*bulkhead).AcquirePermit", "bulkhead.(*bulkhead).AcquirePermitWithMaxWait", "bulkhead.(*bulkhead).TryAcquirePermit") {
+			return true
+		}
+		// the body of an acquire function moved into a helper that the package also calls directly (thin wrapper)
+		switch canonName(fn) {
+		case "AcquirePermit", "AcquirePermitWithMaxWait", "TryAcquirePermit":
+			return recvCanon(fn) == "" || recvCanon(fn) == "bulkhead"
+		}
+		return false
 	}
 	recvOK := func(fn *ssa.Function) bool { return ix.WithinNames(fn, "bulkhead.(*bulkhead).ReleasePermit") }
 	n := 0
@@ -738,7 +746,10 @@ func c06Acquire(c *Ctx) {
 			c.Unresolved(spec.fn, "not found")
 			continue
 		}
-		ev := NewEvaluator(c.P, EvalConfig{DecideReturns: true})
+		ev := NewEvaluator(c.P, EvalConfig{DecideReturns: true, Inline: func(f *ssa.Function, d int) bool {
+			// the function's own body when it lives in a helper the method merely forwards to
+			return c.P.InScope[f] && f != fn && canonName(f) == fn.Name()
+		}})
 		ts := ev.TS
 		paths := ev.Run(fn)
 		if ev.Err != nil || len(paths) == 0 {
@@ -860,7 +871,7 @@ func c06Pairing(c *Ctx) {
 	// whole wrapper with the executor's slots inlined; opaque: the acquire, the release, innerFn
 	opaque := map[string]bool{"AcquirePermitWithMaxWait": true, "AcquirePermit": true, "TryAcquirePermit": true, "ReleasePermit": true}
 	ee := c.NewExecEval(info, EvalConfig{Inline: func(f *ssa.Function, d int) bool {
-		if opaque[f.Name()] || !c.P.InScope[f] || f.Pkg == nil {
+		if opaque[canonName(f)] || !c.P.InScope[f] || f.Pkg == nil {
 			return false
 		}
 		return f.Pkg.Pkg.Name() == "bulkhead" || f.Pkg.Pkg.Name() == "policy" || f.Pkg.Pkg.Name() == "internal"
@@ -891,8 +902,12 @@ func c06Pairing(c *Ctx) {
 		relCalls := eventsWhere(p, func(e *Event) bool { return isCall(e, "ReleasePermit") })
 		inner := eventsWhere(p, func(e *Event) bool { return isDynCall(e, innerFn) })
 		_ = rel
-		if len(acq) != 1 || acq[0].Method != "AcquirePermitWithMaxWait" || len(acq[0].Args) != 2 || acq[0].Args[1] != maxWait ||
-			!(acq[0].Args[0].Op == "app" && hasPrefix(acq[0].Args[0].Aux, "Context@") && acq[0].Args[0].Args[0] == exec) {
+		var aa []*T
+		if len(acq) == 1 {
+			aa = lastArgs(acq[0], 2)
+		}
+		if len(acq) != 1 || !strings.EqualFold(acq[0].Method, "AcquirePermitWithMaxWait") || aa == nil || len(fullArgs(acq[0])) != 3 || aa[1] != maxWait ||
+			!(aa[0].Op == "app" && hasPrefix(aa[0].Aux, "Context@") && aa[0].Args[0] == exec) {
 			bad("the wrapper must try to acquire exactly one permit with the execution's context and the configured max wait time")
 			continue
 		}
